@@ -9,6 +9,7 @@ import Vicut.Model.Linewise
 import Vicut.Model.Reader
 import Vicut.Model.Files
 import Vicut.Model.Text
+import Vicut.Model.Field
 
 open Lean Vicut
 
@@ -138,6 +139,36 @@ def opGlobal (req : Json) : Json :=
   let isMatch : Str → Bool := fun t => ((table.find? (fun e => e.1 == t)).map (·.2)).getD false
   Json.mkObj [("lines", Json.arr ((globalLines isMatch (jbool req "polarity") gs).map (fun (n : Nat) => (Json.num n : Json))).toArray)]
 
+def anchorOf (s : String) : SelAnchor := if s == "Start" then .start else .end_
+
+/-- `sel_mode`: ["char",anchor] | ["line",anchor] | ["block",anchor,pos] | null;
+`sel_range`: ["one",s,e] | ["two",[[s,e],..]] | null -/
+def selModeOf (j : Json) : Option SelMode :=
+  match j with
+  | .arr #[.str "char", .str a] => some (.char (anchorOf a))
+  | .arr #[.str "line", .str a] => some (.line (anchorOf a))
+  | .arr #[.str "block", .str a, p] => some (.block (anchorOf a) (p.getNat?.toOption.getD 0))
+  | _ => none
+
+def selRangeOf (j : Json) : Option SelRange :=
+  match j with
+  | .arr #[.str "one", s, e] => some (.oneDim (s.getNat?.toOption.getD 0) (e.getNat?.toOption.getD 0))
+  | .arr #[.str "two", .arr ws] => some (.twoDim (ws.toList.map fun w =>
+      match w with
+      | .arr #[a, b] => (a.getNat?.toOption.getD 0, b.getNat?.toOption.getD 0)
+      | _ => (0, 0)))
+  | _ => none
+
+/-- `{"op":"field","gs":[..],"c0":n,"c1":n,"sel_mode":..,"sel_range":..}`: the tail of read_field. -/
+def opField (req : Json) : Json :=
+  let gs := gsOf req
+  let m := selModeOf ((req.getObjVal? "sel_mode").toOption.getD Json.null)
+  let r := selRangeOf ((req.getObjVal? "sel_range").toOption.getD Json.null)
+  match fieldOf gs (jnat req "c0") (jnat req "c1") m r with
+  | .ok s => Json.mkObj [("ok", J s)]
+  | .error .panic => Json.mkObj [("panic", true)]
+  | .error .sliceFailed => Json.mkObj [("err", "Failed to slice buffer")]
+
 def dispatch (req : Json) : Json :=
   match jstr req "op" with
   | "ping" => Json.mkObj [("pong", true)]
@@ -147,6 +178,7 @@ def dispatch (req : Json) : Json :=
   | "keys" => opKeys req
   | "inplace" => opInplace req
   | "geometry" => opGeometry req
+  | "field" => opField req
   | "global" => opGlobal req
   | op => Json.mkObj [("err", Json.str s!"unknown op {op}")]
 
